@@ -10,12 +10,18 @@ const (
 )
 
 var registry = []*HarnessSpec{
+	{Prop: "C03", Name: "zzH03header", Pkg: pkgConfig, Tier: "quick", Bounds: "all header keys symbolic (every shape of default_lifetime; any value of the timers, hop limit, flags, preference) as accepted by the real parser"},
+	{Prop: "C03", Name: "zzH03prefix", Pkg: pkgConfig, Tier: "quick", Bounds: "one static prefix stanza: any accepted IPv6 prefix, both lifetimes of every accepted shape"},
+	{Prop: "C03", Name: "zzH03route", Pkg: pkgConfig, Tier: "quick", Bounds: "one static route stanza: any accepted prefix, lifetime of every accepted shape, preference"},
+	{Prop: "C03", Name: "zzH03dns", Pkg: pkgConfig, Tier: "quick", Bounds: "one rdnss stanza (one symbolic server) or one dnssl stanza (one concrete name), lifetime of every accepted shape"},
+	{Prop: "C03", Name: "zzH03misc", Pkg: pkgConfig, Tier: "quick", Bounds: "mtu any accepted value; source LLA absent or a symbolic Ethernet address; pref64 absent / default / any parsable prefix string"},
 	{Prop: "C14", Name: "zzH14b", Pkg: pkgConfig, Tier: "quick", Params: map[string]int{"static": 2, "repeats": 3}, Bounds: "stanza with :: at any position among 2 symbolic static servers, parsed by the real parseRDNSS; RA built 3 times"},
 	{Prop: "C02", Name: "zzH02interval", Pkg: pkgConfig, Tier: "quick", Bounds: "max_interval / min_interval of every shape (absent, auto, infinite, unparsable, any int64 ns value)"},
 	{Prop: "C02", Name: "zzH02header", Pkg: pkgConfig, Tier: "quick", Bounds: "one of default_lifetime / reachable_time / retransmit_timer / hop_limit / mtu / preference of every shape, max_interval any accepted value"},
 	{Prop: "C02", Name: "zzH02prefix", Pkg: pkgConfig, Tier: "quick", Bounds: "one prefix stanza: prefix string empty / unparsable / any IPv6 or IPv4 prefix incl. host bits, 4in6; both lifetimes of every shape; flags absent/true/false; deprecated"},
 	{Prop: "C02", Name: "zzH02route", Pkg: pkgConfig, Tier: "quick", Bounds: "one route stanza: prefix string of every shape, lifetime of every shape, preference low/high/absent/unknown, deprecated"},
 	{Prop: "C02", Name: "zzH02rdnss", Pkg: pkgConfig, Tier: "quick", Bounds: "one rdnss stanza: lifetime of every shape, 0..3 server strings each unparsable / IPv4 / any IPv6 address"},
+	{Prop: "C02", Name: "zzH02pref64", Pkg: pkgConfig, Tier: "quick", Bounds: "one pref64 stanza: prefix absent / empty / unparsable / any IPv4 or IPv6 prefix of any length"},
 	{Prop: "C02", Name: "zzH02dnssl", Pkg: pkgConfig, Tier: "quick", Bounds: "one dnssl stanza: lifetime of every shape, 0..3 names from three tokens"},
 	{Prop: "C19", Name: "zzH19a", Pkg: pkgNetstate, Tier: "quick", Params: map[string]int{"subs": 2, "changes": 3, "subs@thorough": 3, "changes@thorough": 4}, Bounds: "2 (3) subscribers with any non-empty 7-bit mask on one of two interfaces; 3 (4) changes, each any non-zero 7-bit value, on either interface"},
 	{Prop: "C19", Name: "zzH19b", Pkg: pkgNetstate, Tier: "quick", Bounds: "10 matching undrained events"},
